@@ -215,6 +215,10 @@ def base_case(draw, name, max_len=8, max_src=4, steps="full", min_len=0, min_src
             sentinel = value_of_profile()
         if profile == "eq-all" or sentinel[0] == "G":
             sentinel = draw(st.sampled_from([["n"], ["s", "never"], ["i", 77]]))
+        if profile == "num" and draw(st.integers(0, 3)) == 0:
+            # the sentinel is a value that is not equal to itself: "equal to the sentinel" includes "is the sentinel"
+            sentinel = ["nan"]
+            items.insert(draw(st.integers(0, len(items))), ["nan"])
         v["sentinel"] = sentinel
         srcs[0]["tail"] = uids.fix(("K", sentinel[1])) if sentinel[0] == "I" else sentinel
         srcs[0]["fl"] = "def"
